@@ -26,9 +26,13 @@ fn find(h: &[u8], n: &[u8]) -> bool {
 
 /// the term the model's stand-in KDF returns (Kdf.v kdf_x)
 fn keyterm(phc: &rd::Phc, pw: &[u8]) -> String {
-    let get = |k: &str, d: u64| -> u64 { phc.params.iter().rev().find(|(a, _)| a == k).and_then(|(_, v)| v.parse().ok()).unwrap_or(d) };
+    let last = |k: &str| phc.params.iter().rev().find(|(a, _)| a == k).map(|(_, v)| v.as_str());
+    let get = |k: &str, d: u64| -> u64 { last(k).and_then(rd::phc_decimal).map(|v| v as u64).unwrap_or(d) };
     let norm = if phc.id.starts_with("argon2") {
-        format!("{}|{}|{}|{}", phc.version.unwrap_or(19), get("m", 19456), get("t", 2), get("p", 1))
+        // the associated data of argon2 enters the hash (the key id does not)
+        let data = last("data").and_then(|d| rd::b64_decode_nopad(d.as_bytes())).unwrap_or_default();
+        let dpart = if data.is_empty() { String::new() } else { format!("|data={}", hex(&data)) };
+        format!("{}|{}|{}|{}{}", phc.version.unwrap_or(19), get("m", 19456), get("t", 2), get("p", 1), dpart)
     } else {
         format!("{}", get("i", 600000))
     };
@@ -338,6 +342,26 @@ fn gen(prop: &str, tier: &str, seed: u64) -> Vec<String> {
         format!("$scrypt$ln=1,r=1,p=1${}", sb),
         "$argon2id$v=19$m=8,t=1,p=1".to_string(),
         "garbage".to_string(),
+        // where a lax parser and the password-hash crate could part: leading zeros, a sign, values at and above 2^32,
+        // a repeated parameter, an empty or padded or non-alphabet salt, an empty parameter list, a trailing field
+        format!("$pbkdf2-sha256$i=01,l=32${}", sb),
+        format!("$pbkdf2-sha256$i=+1,l=32${}", sb),
+        format!("$pbkdf2-sha256$i=4294967295,l=32${}", sb).replace("4294967295", "4294967296"),
+        format!("$pbkdf2-sha256$i=1,i=2,l=32${}", sb),
+        format!("$pbkdf2-sha256$i=1,l=032${}", sb),
+        format!("$argon2id$v=19$m=08,t=1,p=1${}", sb),
+        format!("$argon2id$v=019$m=8,t=1,p=1${}", sb),
+        format!("$argon2id$v=19$m=8,t=1,p=1${}=", sb),
+        format!("$argon2id$v=19$m=8,t=1,p=1${}!", &sb[..sb.len() - 1]),
+        "$argon2id$v=19$m=8,t=1,p=1$".to_string(),
+        format!("$argon2id$v=19$${}", sb),
+        format!("$argon2id$v=19$m=8,t=1,p=1${}$", sb),
+        format!("$ARGON2ID$v=19$m=8,t=1,p=1${}", sb),
+        format!("argon2id$v=19$m=8,t=1,p=1${}", sb),
+        format!("$argon2id$v=19$m=8,,t=1,p=1${}", sb),
+        format!("$argon2id$v=19$m=8,t=1,p=1,${}", sb),
+        format!("$argon2id$v=19$m=8,t=1,keyid=Zm9v,p=1${}", sb),
+        format!("$argon2id$v=19$m=8,t=1,p=1,data=Zm9v${}", sb),
     ] {
         phsfs.push(s);
     }
@@ -357,6 +381,201 @@ fn gen(prop: &str, tier: &str, seed: u64) -> Vec<String> {
             let h = |s: &str| if s.is_empty() { String::new() } else { hex(s.as_bytes()) };
             out.push(format!("read\t{}\t{}\t{}\t{}\t{}\t{}\t{}", enc, mode, hex(ph.as_bytes()), h(pw), h(pw), 999, comp));
             out.push(format!("read\t{}\t{}\t{}\t{}\t{}\t{}\t{}", enc, mode, hex(ph.as_bytes()), h(pw), ohex(&rd_pw), 999, comp));
+        }
+    }
+    // (e) the PHC string rules of the password-hash crate and the parameter rules of the KDF crates, one read
+    // per string (the outcome does not depend on cipher or mode): identifier / value / salt / hash alphabets and
+    // length limits at and beyond their edges, the 127-byte parameter string, canonical decimals, where a `v=`
+    // field counts as the version, repeated parameters (the last one counts, every one is checked), the argon2
+    // keyid / data parameters (data enters the key), a hash in the string (it fixes the output length), and
+    // under an algorithm the reader does not support what is an error of the FORMAT (InvalidData) and what is
+    // not (Unsupported).  Limits of the generator, on purpose: no rounds / time cost above 1000 and no memory
+    // cost above 64 KiB (the reader would run for minutes, or answer OutOfMemory depending on the machine: the
+    // allocation probe of verify_password is not described by the model).
+    {
+        let b = |x: &[u8]| rd::b64_encode(x, false, false);
+        let seq = |n: usize| (0..n as u8).collect::<Vec<u8>>();
+        let (h9, h10, h16, h32, h64, h65) = (b(&seq(9)), b(&seq(10)), b(&seq(16)), b(&seq(32)), b(&seq(64)), b(&seq(65)));
+        let s47 = b(&seq(47));
+        let s48 = b(&seq(48)); // 64 characters
+        let s49 = b(&seq(49)); // 66 characters
+        let pad127 = |n: usize| {
+            // a parameter string of exactly n bytes: a=1,b=1,... then one long value
+            let mut t = String::from("a=1,b=1,c=1,d=1,e=1,f=1,g=1,h=1,j=1,k=1,n=1,o=1,q=1,r=1,s=1,u=1,w=1,x=1,y=1,z=1,aa=");
+            while t.len() < n {
+                t.push('7');
+            }
+            t
+        };
+        let mut hostile: Vec<String> = vec![
+            // canonical decimals
+            format!("$pbkdf2-sha256$i=0,l=32${}", sb),
+            format!("$pbkdf2-sha256$i=0${}", sb),
+            format!("$pbkdf2-sha256$i=00${}", sb),
+            format!("$pbkdf2-sha256$i=-1,l=32${}", sb),
+            format!("$pbkdf2-sha256$i=1.0,l=32${}", sb),
+            format!("$pbkdf2-sha256$i=,l=32${}", sb),
+            format!("$pbkdf2-sha256$i=1e2,l=32${}", sb),
+            format!("$pbkdf2-sha256$i=10000000000000000000000000000000000000000000000000000000000000001,l=32${}", sb),
+            format!("$pbkdf2-sha256$i=1,l=4294967296${}", sb),
+            // output length
+            format!("$pbkdf2-sha256$i=1,l=16${}", sb),
+            format!("$pbkdf2-sha256$i=1,l=64${}", sb),
+            format!("$pbkdf2-sha256$i=1,l=9${}", sb),
+            format!("$pbkdf2-sha256$i=1,l=65${}", sb),
+            format!("$pbkdf2-sha256$i=1,l=0${}", sb),
+            format!("$pbkdf2-sha256$l=32${}", sb),
+            format!("$pbkdf2-sha256$l=16,l=32${}", sb),
+            format!("$pbkdf2-sha256$l=32,l=16${}", sb),
+            format!("$pbkdf2-sha256${}", sb),
+            // names
+            format!("$pbkdf2-sha256$I=1,l=32${}", sb),
+            format!("$pbkdf2-sha256$i=1,l=32,data=Zm9v${}", sb),
+            format!("$pbkdf2-sha256$i=1,i=2,i=3${}", sb),
+            format!("$argon2id$v=19$M=8,t=1,p=1${}", sb),
+            format!("$argon2id$V=19$m=8,t=1,p=1${}", sb),
+            format!("$argon2id$v=19$m=8, t=1,p=1${}", sb),
+            format!("$argon2id$v=19$m=8=8,t=1,p=1${}", sb),
+            format!("$argon2id$v=19$=8,t=1,p=1${}", sb),
+            format!("$argon2id$v=19$m=,t=1,p=1${}", sb),
+            format!("$argon2id$v=19$m=8,t=1,p=1$${}", sb),
+            // the version field
+            format!("$argon2id$v=16$m=8,t=1,p=1${}", sb),
+            format!("$argon2id$v=0$m=8,t=1,p=1${}", sb),
+            format!("$argon2id$v=+19$m=8,t=1,p=1${}", sb),
+            format!("$argon2id$v=$m=8,t=1,p=1${}", sb),
+            format!("$argon2id$v=19,m=8,t=1,p=1${}", sb),
+            format!("$argon2id$v=19,${}", sb),
+            format!("$argon2id$v=19$v=19$m=8,t=1,p=1${}", sb),
+            format!("$argon2id$v=19$v=19${}", sb),
+            format!("$argon2id$m=8,t=1,p=1$v=19${}", sb),
+            "$argon2id$v=19$m=8,t=1,p=1$v=19".to_string(),
+            "$argon2id$v=19$m=8,t=1,p=1$m=8".to_string(),
+            "$pbkdf2-sha256$i=1,l=32$v=1234".to_string(),
+            format!("$pbkdf2-sha256$v=$i=1,l=32${}", sb),
+            // repeated parameters; every p is range-checked (repaired: a later p used to get past the guard)
+            format!("$argon2id$v=19$m=8,t=1,p=1,p=4294967295${}", sb),
+            format!("$argon2id$v=19$m=8,t=1,p=4294967295,p=1${}", sb),
+            format!("$argon2id$v=19$m=8,t=1,p=16777216,p=1${}", sb),
+            format!("$argon2id$v=19$m=8,t=1,p=1,p=536870912${}", sb),
+            format!("$argon2id$v=19$m=8,t=1,p=16777215,p=1${}", sb),
+            format!("$argon2id$v=19$m=8,t=1,p=16777216${}", sb),
+            format!("$argon2id$v=19$m=8,t=1,p=x,p=1${}", sb),
+            format!("$argon2id$v=19$m=16,m=8,t=1,p=1${}", sb),
+            format!("$argon2id$v=19$m=8,m=16,t=1,p=2${}", sb),
+            format!("$argon2id$v=19$m=16,m=8,t=1,p=2${}", sb),
+            format!("$argon2id$v=19$m=8,t=1,t=2,p=1${}", sb),
+            format!("$argon2id$v=19$m=7,t=1,p=1${}", sb),
+            format!("$argon2id$v=19$m=8,t=0,p=1${}", sb),
+            format!("$argon2id$v=19$m=8,t=1,p=0${}", sb),
+            // argon2 keyid / data
+            format!("$argon2id$v=19$m=8,t=1,p=1,keyid=${}", sb),
+            format!("$argon2id$v=19$m=8,t=1,p=1,keyid={}${}", b(&seq(8)), sb),
+            format!("$argon2id$v=19$m=8,t=1,p=1,keyid={}${}", b(&seq(9)), sb),
+            format!("$argon2id$v=19$m=8,t=1,p=1,keyid=12${}", sb),
+            format!("$argon2id$v=19$m=8,t=1,p=1,keyid=1${}", sb),
+            format!("$argon2id$v=19$m=8,t=1,p=1,keyid=a.b${}", sb),
+            format!("$argon2id$v=19$m=8,t=1,p=1,data=${}", sb),
+            format!("$argon2id$v=19$m=8,t=1,p=1,data={}${}", b(&seq(32)), sb),
+            format!("$argon2id$v=19$m=8,t=1,p=1,data={}${}", b(&seq(33)), sb),
+            format!("$argon2id$v=19$m=8,t=1,p=1,data=Zm9v,data=YmFy${}", sb),
+            format!("$argon2id$v=19$m=8,t=1,p=1,data=Zm9v,data=${}", sb),
+            format!("$argon2id$v=19$m=8,t=1,p=1,data=Zm9${}", sb),
+            format!("$argon2id$v=19$data=Zm9v,m=8,t=1,p=1${}", sb),
+            format!("$argon2i$v=19$m=8,t=1,p=1,data=Zm9v${}", sb),
+            format!("$argon2d$v=19$m=8,t=1,p=1,data=Zm9v,keyid=Zm9v${}", sb),
+            // the salt: text length 4..=64, the value alphabet, and it must decode (canonical, unpadded)
+            "$pbkdf2-sha256$i=1,l=32$MDE".to_string(),
+            "$pbkdf2-sha256$i=1,l=32$MDEy".to_string(),
+            "$pbkdf2-sha256$i=1,l=32$MDEyM".to_string(),
+            "$pbkdf2-sha256$i=1,l=32$MDEyMw".to_string(),
+            "$pbkdf2-sha256$i=1,l=32$MDEyMx".to_string(),
+            "$pbkdf2-sha256$i=1,l=32$MDEy.DEy".to_string(),
+            "$pbkdf2-sha256$i=1,l=32$MDEy-DEy".to_string(),
+            "$pbkdf2-sha256$i=1,l=32$MDEy_DEy".to_string(),
+            format!("$pbkdf2-sha256$i=1,l=32${}", s47),
+            format!("$pbkdf2-sha256$i=1,l=32${}", s48),
+            format!("$pbkdf2-sha256$i=1,l=32${}", s49),
+            format!("$pbkdf2-sha256$i=1,l=32${}A", s48),
+            format!("$argon2id$v=19$m=8,t=1,p=1${}", s48),
+            "$argon2id$v=19$m=8,t=1,p=1$MDEyMzQ1Ng".to_string(),
+            "$argon2id$v=19$m=8,t=1,p=1$MDEyMzQ1Njc".to_string(),
+            // a hash in the string
+            format!("$argon2id$v=19$m=8,t=1,p=1${}${}", sb, h32),
+            format!("$argon2id$v=19$m=8,t=1,p=1${}${}", sb, h16),
+            format!("$argon2id$v=19$m=8,t=1,p=1${}${}", sb, h10),
+            format!("$argon2id$v=19$m=8,t=1,p=1${}${}", sb, h9),
+            format!("$argon2id$v=19$m=8,t=1,p=1${}${}", sb, h64),
+            format!("$argon2id$v=19$m=8,t=1,p=1${}${}", sb, h65),
+            format!("$argon2id$v=19$m=8,t=1,p=1${}${}$", sb, h32),
+            format!("$argon2id$v=19$m=8,t=1,p=1${}${}=", sb, h32),
+            format!("$pbkdf2-sha256$i=1,l=32${}${}", sb, h32),
+            format!("$pbkdf2-sha256$i=1,l=32${}${}", sb, h16),
+            format!("$pbkdf2-sha256$i=1${}${}", sb, h16),
+            format!("$pbkdf2-sha256$i=1,l=16${}${}", sb, h16),
+            format!("$pbkdf2-sha512$i=2${}${}", sb, h64),
+            // an algorithm the reader does not support: errors of the format come first
+            format!("$scrypt$ln=abc${}", sb),
+            "$scrypt$ln=abc$MDEy.DEy".to_string(),
+            "$scrypt$ln=1$MDEyMx".to_string(),
+            "$scrypt$ln=1$MDEyM".to_string(),
+            "$scrypt$ln=abc$MDE".to_string(),
+            "$scrypt$ln=1$MDEy_DEy".to_string(),
+            format!("$scrypt$ln=01${}", sb),
+            format!("$scrypt$ln=a/b+c.d-e${}", sb),
+            format!("$scrypt$ln=a_b${}", sb),
+            format!("$scrypt$Ln=1${}", sb),
+            format!("$scrypt$l-2n=1,-=1${}", sb),
+            format!("$scrypt$ln=1,ln=2${}", sb),
+            format!("$scrypt$keyid=a.b${}", sb),
+            format!("$scrypt$v=1$ln=1${}", sb),
+            format!("$scrypt$v=01$ln=1${}", sb),
+            format!("$scrypt$v=4294967295$ln=1${}", sb),
+            format!("$scrypt$v=4294967296$ln=1${}", sb),
+            format!("$scrypt$v=$ln=1${}", sb),
+            format!("$scrypt$v=1,x=2${}", sb),
+            format!("$scrypt$v=1$v=2${}", sb),
+            "$scrypt$v=1".to_string(),
+            "$scrypt".to_string(),
+            "$scrypt$".to_string(),
+            "$scrypt$$".to_string(),
+            format!("$scrypt$${}", sb),
+            format!("$scrypt$ln=1${}${}", sb, h32),
+            format!("$scrypt$ln=1${}${}", sb, h9),
+            format!("$scrypt$ln=1${}${}", sb, h10),
+            format!("$scrypt$ln=1${}${}", sb, h64),
+            format!("$scrypt$ln=1${}${}", sb, h65),
+            format!("$scrypt$ln=1${}$AAECAwQFBgcICR", sb),
+            format!("$scrypt$ln=1${}$AAECAwQFBgcICQ.LDA0ODxAREhMUFRYXGBkaGxwdHh8", sb),
+            format!("$0123456789012345678901234567890a$ln=1${}", sb),
+            format!("$0123456789012345678901234567890ab$ln=1${}", sb),
+            format!("$scr_ypt$ln=1${}", sb),
+            format!("$Scrypt$ln=1${}", sb),
+            format!("$-$ln=1${}", sb),
+            format!("$scrypt$01234567890123456789012345678901=1${}", sb),
+            format!("$scrypt$012345678901234567890123456789012=1${}", sb),
+            format!("$scrypt$a={}${}", "7".repeat(64), sb),
+            format!("$scrypt$a={}${}", "7".repeat(65), sb),
+            format!("$scrypt${}${}", pad127(127), sb),
+            format!("$scrypt${}${}", pad127(128), sb),
+            format!("$argon2id$v=19$m=8,t=1,p=1,{}${}", "m=8,".repeat(28) + "m=8", sb),
+            format!("$argon2id$v=19$m=8,t=1,p=1,{}${}", "m=8,".repeat(28) + "m=88", sb),
+            // around the string
+            String::new(),
+            "$".to_string(),
+            "$$".to_string(),
+            format!(" $argon2id$v=19$m=8,t=1,p=1${}", sb),
+            format!("$argon2id$v=19$m=8,t=1,p=1${} ", sb),
+            format!("$argon2id$v=19$m=8,t=1,p=1${}\n", sb),
+            format!("$argon2id$v=19$m=8,t=1,p=1${}\0", sb),
+            format!("$argon2id$v=19$m=8,t=1,p=1${}\u{e9}", &sb[..sb.len() - 2]),
+            format!("$argon2id$v=19$m=8,t=1,p=1$${}", sb),
+        ];
+        hostile.dedup();
+        for ph in &hostile {
+            let (enc, mode) = *r.pick(&[(1u8, 0u8), (1, 1), (2, 0), (2, 1)]);
+            let comp = *r.pick(&[0u8, 1, 2, 4]);
+            out.push(format!("read\t{}\t{}\t{}\t{}\t{}\t{}\t{}", enc, mode, if ph.is_empty() { String::new() } else { hex(ph.as_bytes()) }, hex(b"password"), hex(b"password"), 999, comp));
         }
     }
     for (enc, mode) in [(1u8, 0u8), (1, 1), (2, 0), (2, 1), (0, 0)] {
